@@ -99,9 +99,11 @@ func init() {
 					}
 					add(c)
 				}
-				// the range container with `in`
+				// the range container with `in`, as include and as exclude
 				add(eCase{Kind: "compact", Policy: "skip", Configs: map[int]string{0: "ext_range"},
 					Docs: []eDoc{{ID: 1, Cons: []eConj{{{F: 0, Inc: true, V: v}}}}}, Queries: mkQueries(0)})
+				add(eCase{Kind: "kgroups", Policy: "skip", Configs: map[int]string{0: "ext_range"},
+					Docs: []eDoc{{ID: 1, Cons: []eConj{{{F: 0, Inc: false, V: v}}}}}, Queries: mkQueries(0)})
 			}
 			for _, v := range betweenValues() {
 				for _, op := range []int{1, 2, 3} {
